@@ -56,7 +56,8 @@ COMPONENTS = {
 EXPECTED_PROBES = ["kind_sched", "kind_clients", "kind_numba", "two_clients_inside_build_sindex",
                    "pickle_of_indexed_object", "cold_cache_first_access_concurrent",
                    "two_concurrent_pack_to_parquet_calls", "fine_mode_schedule",
-                   "concurrent_sjoin_of_shared_frames"]
+                   "concurrent_sjoin_of_shared_frames", "numba_very_long_ring",
+                   "numba_sweep_effective"]
 
 ENV = {"NUMBA_NUM_THREADS": "16"}      # the sweep needs up to 16 numba threads
 REPO = seams.SP_DIR.rstrip("/")
@@ -122,8 +123,14 @@ def cases(tier, base_seed):
             kind = rng.choice(("polygon", "multipolygon", "multiline", "line", "multipoint", "point"))
             n = rng.choice((5, 40, 300))
             vals = gen.gen_values(rng, kind, n)
+            big = None
+            if rng.random() < 0.35:
+                # one very long ring with coordinates that are not exactly representable:
+                # kernels that switch to a parallel reduction only above a size threshold
+                big = {"n": rng.choice((20000, 40000, 70000)), "r": rng.choice((7.3, 0.1, 1234.567)),
+                       "geom": rng.choice(("polygon", "multipolygon", "line", "multiline"))}
             yield {"seed": seed, "kind": "numba", "geom": kind, "values": vals,
-                   "box": gen.gen_box(rng), "right": _right(rng)}
+                   "box": gen.gen_box(rng), "right": _right(rng), "big": big}
         i += 1
 
 
@@ -619,7 +626,28 @@ def _run_numba(case):
     r = case["right"]
     shape = gen.build_array(r["kind"], r["values"])[0]
 
+    bigarr = None
+    if case.get("big"):
+        import math
+        b = case["big"]
+        ring = []
+        for i in range(b["n"]):
+            t = 2.0 * math.pi * i / b["n"]
+            ring += [8.0 + b["r"] * math.cos(t), 8.0 + b["r"] * math.sin(t)]
+        ring += ring[:2]
+        el = {"polygon": [ring], "multipolygon": [[ring]], "line": ring, "multiline": [ring]}[b["geom"]]
+        bigarr = gen.build_array(b["geom"], [el, None, el])
+        probes["numba_very_long_ring"] = 1
+
     def compute():
+        if bigarr is not None:
+            return [[models.freeze(float(v)) for v in bigarr.area],
+                    [models.freeze(float(v)) for v in bigarr.length],
+                    e2.np_rows(bigarr.bounds),
+                    [bool(v) for v in bigarr.intersects_bounds(box)]] + compute_small()
+        return compute_small()
+
+    def compute_small():
         out = [[bool(v) for v in arr.intersects_bounds(box)],
                [models.freeze(float(v)) for v in arr.area],
                [models.freeze(float(v)) for v in arr.length],
@@ -628,6 +656,8 @@ def _run_numba(case):
             out.append([bool(v) for v in arr.intersects(shape)])
             out.append([bool(v) for v in arr.intersects(shape, inds=np.arange(len(arr))[::2])])
         return out
+    effective = seams.numba_sweep_effective()
+    probes["numba_sweep_effective" if effective else "numba_sweep_NOT_effective"] = 1
     prev = numba.get_num_threads()
     maxt = numba.config.NUMBA_NUM_THREADS
     ref = None
@@ -653,7 +683,7 @@ def _run_numba(case):
     probes["numba_thread_counts_compared"] = compared
     if bad:
         return result(False, bad[0], bad[1], {"kind": "numba", "geom": kind}, digest, True, probes)
-    return result(True, digest=digest, nontrivial=compared >= 4, probes=probes,
+    return result(True, digest=digest, nontrivial=compared >= 4 and effective, probes=probes,
                   events=compared)
 
 
